@@ -169,7 +169,7 @@ def run_version(args):
             n_cb = len(cbs)
             try:
                 ezsp.frame_received(frame)
-            except Exception as e:  # noqa
+            except BaseException as e:  # noqa
                 rv["raised"] = "frame_received raised " + type(e).__name__
             await settle()
             got = None
